@@ -155,8 +155,8 @@ def configs(ctx):
             for (t0, tf) in spans:
                 for dt0 in (0.25, 0.75, -0.25):
                     for dn in ("float32", "longdouble"):
-                        out.append(dict(method=m, dtype=dn, rhs="const", t0=t0, tf=tf, dt0=dt0))
-                    out.append(dict(method=m, dtype="float64", rhs="osc", t0=t0, tf=tf, dt0=dt0))
+                        out.append(dict(method=m, dtype=dn, rhs="const", t0=t0, tf=tf, dt0=dt0, _depth=2))
+                    out.append(dict(method=m, dtype="float64", rhs="osc", t0=t0, tf=tf, dt0=dt0, _depth=2))
     return out
 
 
